@@ -1,6 +1,7 @@
 import CovfieModel.Model.ImpRef
 import CovfieModel.Model.LinRef
 import CovfieModel.Model.RImpRef
+import CovfieModel.Model.OwnScript
 /-! Driver for the translated kernels (DESIGN.md §11.6).
   print                         -> one line `K <name> <s-expression>` per reference kernel (the terms the theorems are about)
   ref <name> | prog <sexp>      -> selects the program the following `run` lines execute
@@ -16,7 +17,8 @@ def step (cur : Option Stmt) (line : String) : Option Stmt × List String :=
   match line.trimAscii.toString.splitOn " " with
   | ["print"] => (cur, Ref.all.map (fun (n, p) => s!"K {n} {p.toSexp}") ++
       Covfie.Lin.Ref.all.map (fun (n, p) => s!"K {n} {p.toSexp}") ++
-      Covfie.RImp.Ref.all.map (fun (n, p) => s!"K {n} {p.toSexp}"))
+      Covfie.RImp.Ref.all.map (fun (n, p) => s!"K {n} {p.toSexp}") ++
+      Covfie.Heap.Ref.all.map (fun (n, t) => s!"K {n} {t}"))
   | ["ref", n] =>
     match Ref.all.find? (·.1 = n) with
     | some (_, p) => (some p, ["prog-ok"])
